@@ -73,3 +73,24 @@ Theorem C05_symmetric_skips_hypotheses_satisfiable :
                                                                       ("p_note", PStr "n"); ("p_tag", PStr "t")]])]%string).
 Proof. exact rtg_ex. Qed.
 Print Assumptions C05_symmetric_skips_hypotheses_satisfiable.
+
+From AV Require Import Small.Aggregate Small.AggregateRT.
+
+(* AGGREGATE FIELDS, KEY BY KEY.  serialize merges into one object the regular properties, the objects of the flattened
+   fields and the dicts of the pattern / additional properties fields (`merged`, compared with the keys of serialize's output
+   on every generated class); deserialize dispatches the keys of that object (`dispatch`, compared with apischema under C01).
+   When no key is claimed by two sources (agg_rt_hyps, executable, counted on the generated cases), every source gets back
+   exactly the keys it emitted; with a collision it does not. *)
+Theorem C05_aggregate_keys_round_trip :
+  forall a e, agg_rt_hyps a e = true ->
+  let '(ts, ms, rest) := dispatch a (merged e) in
+  Forall2 set_eq ts (kids e) /\ Forall2 set_eq ms (pkeys e) /\ set_eq rest (extra e).
+Proof. exact aggregate_keys_round_trip. Qed.
+Print Assumptions C05_aggregate_keys_round_trip.
+
+Theorem C05_aggregate_hypotheses_satisfiable_and_needed :
+  agg_rt_hyps rt_ex_agg rt_ex_em = true
+  /\ (let a := mkAgg ["n0"] [["f0"]] [] true in let e := mkEm ["n0"] [[]] [] ["f0"] in
+      agg_rt_hyps a e = false /\ dispatch a (merged e) = ([["f0"]], [], []))%string.
+Proof. split; [exact agg_rt_ex|exact collision_refuted]. Qed.
+Print Assumptions C05_aggregate_hypotheses_satisfiable_and_needed.
